@@ -40,14 +40,33 @@ func matchAny(pats []string, s string) bool {
 // callerMatches: rule caller patterns are "pkgpath::name-pattern" or just a name pattern
 // (then the rule's own package). Closures match through their outermost parent too.
 func (r *CallRule) callerMatches(fn *ssa.Function, rulePkg string) bool {
+	// Only the function itself is matched: a closure (F$1) is a caller only when a pattern
+	// names it (e.g. by a trailing *). Closures handed out as callbacks run inside a callee
+	// that is itself subject to the rule; closures called directly are inlined into F.
 	names := []string{}
-	for f := fn; f != nil; f = f.Parent() {
-		if f.Pkg == nil {
-			break
+	if fn.Pkg != nil {
+		names = append(names, fn.Pkg.Pkg.Path()+"::"+fn.RelString(fn.Pkg.Pkg))
+	}
+	// "!pattern" entries exclude callers (exemptions are thus explicit in the contract)
+	for _, pat := range r.Callers {
+		if !strings.HasPrefix(pat, "!") {
+			continue
 		}
-		names = append(names, f.Pkg.Pkg.Path()+"::"+f.RelString(f.Pkg.Pkg))
+		for _, q := range expandBraces(pat[1:]) {
+			if !strings.Contains(q, "::") {
+				q = rulePkg + "::" + q
+			}
+			for _, n := range names {
+				if globMatch(q, n) {
+					return false
+				}
+			}
+		}
 	}
 	for _, pat := range r.Callers {
+		if strings.HasPrefix(pat, "!") {
+			continue
+		}
 		if strings.HasPrefix(pat, "implements:") {
 			if fn.Pkg != nil && fn.Pkg.Pkg.Path() == rulePkg && implementsMethod(fn, strings.TrimPrefix(pat, "implements:")) {
 				return true
